@@ -81,7 +81,7 @@ def cargo_kani(crate_rel, filters, features, target, rep, timeout_each=600, jobs
     return rc, out + '\n' + err, secs, to
 
 
-def run_harnesses(rep, crate_rel, harnesses, features, target, timeout_each=600, extra=(), harness_file=None, playback_features=None, jobs=None):
+def run_harnesses(rep, crate_rel, harnesses, features, target, timeout_each=600, extra=(), harness_file=None, playback_features=None, jobs=None, guard=True):
     """Runs the given Harness list in one cargo-kani invocation; adds one Obligation per harness."""
     names = [h.name for h in harnesses] + ['verif_canary_must_fail']
     t0 = time.time()
@@ -147,7 +147,7 @@ def run_harnesses(rep, crate_rel, harnesses, features, target, timeout_each=600,
         if ob.status == 'failed' and nplay < 2 and playback_features is not False:
             nplay += 1
             try:
-                playback(rep, ob, crate_rel, features, target)
+                playback(rep, ob, crate_rel, features, target, values_only=(playback_features == 'values-only'))
             except Exception as e:   # replay is best effort; the verdict stands without it
                 ob.detail += '\n[playback failed: %r]' % e
     can = [r for full, r in parsed.items() if full.endswith('verif_canary_must_fail')]
@@ -173,7 +173,7 @@ def canary(rep, crate_rel, features, target):
     return ok
 
 
-def playback(rep, ob, crate_rel, features, target, timeout=900):
+def playback(rep, ob, crate_rel, features, target, timeout=900, values_only=False, guard=True):
     """Concrete playback of a failed harness: obtain Kani's counterexample values, then re-run the harness body
     natively (cargo test via `cargo kani playback`) against the real code, with the mock host linked as the real
     C symbols declared by the extern_wasm! hook."""
@@ -194,6 +194,10 @@ def playback(rep, ob, crate_rel, features, target, timeout=900):
     ob.replay = {'input': 'kani::any() values in call order: [' + ', '.join(vals) + ']',
                  'harness': '%s (%s)' % (full, getattr(h, 'file', '/verif/harness')),
                  'playback_test': test_src}
+    if values_only:
+        ob.replay['native_outcome'] = ('not replayed natively: this harness replaces the global allocator by contract stubs, which '
+                                       'concrete playback does not apply; the values above are the verifier\'s counterexample')
+        return
     pdir = os.path.join(BUILD, 'playback')
     os.makedirs(pdir, exist_ok=True)
     tname = re.search(r'fn (kani_concrete_playback_\w+)', test_src).group(1)
